@@ -128,6 +128,10 @@ func (e *sessEnv) send(ctx context.Context, p []byte) ([]byte, error) {
 	if item == "L" {
 		return nil, errors.New("timeout")
 	}
+	if item == "Lx" { // the datagram left, the reply is lost, and the CALLER's context ends while the library waits for it
+		e.cancel()
+		return nil, context.DeadlineExceeded
+	}
 	if item == "W" { // the socket refuses the write (link down, no buffers): nothing leaves, a *net.OpError comes back
 		return nil, &net.OpError{Op: "write", Net: "udp", Err: errors.New("network is unreachable")}
 	}
@@ -926,18 +930,20 @@ func genSend(g *genCtx) {
 				terminal := false
 				for k := 0; k < 1+g.rng.Intn(4) && !terminal; k++ {
 					attempt++
-					l := "FBBGSXWWL"[g.rng.Intn(9)]
+					l := "FBBGSXWWLx"[g.rng.Intn(10)]
 					switch l {
 					case 'W', 'L':
 						items = append(items, string(l))
+					case 'x':
+						items = append(items, "Lx")
 					default:
 						items = append(items, replyFor(g, sp, byte(l), 0x06, 0x01, nil, attempt))
 					}
-					terminal = l == 'F' || l == 'W' || l == 'L'
+					terminal = l == 'F' || l == 'W' || l == 'L' || l == 'x'
 				}
 				if !terminal { // every script ends in something terminal for a session
 					attempt++
-					items = append(items, []string{"L", "W"}[g.rng.Intn(2)])
+					items = append(items, []string{"L", "W", "Lx"}[g.rng.Intn(3)])
 				}
 				scripts = append(scripts, strings.Join(items, ","))
 			}
